@@ -616,8 +616,9 @@ func (rn *runner) exec(batch []*pendEntry) {
 }
 
 func (rn *runner) crash() {
-	// the process dies: kernel, coroutines, queues and the store connection are gone; the database file stays
-	_ = rn.k.store.Stop()
+	// the process dies: kernel, coroutines, queues and the store connection are gone; the database file stays.
+	// The new process opens the file while the old connection has not been closed (no graceful shutdown).
+	old := rn.k
 	rn.reg = prometheus.NewRegistry()
 	k, err := newKernel(rn.path, rn.cfg, rn.f.bgs, rn.reg)
 	if err != nil {
@@ -626,6 +627,14 @@ func (rn *runner) crash() {
 	rn.k = k
 	rn.inflight = map[string]bool{}
 	rn.tr.Events = append(rn.tr.Events, event{D: C("DCrash"), O: []term{}})
+	// what the restarted server finds: an empty batch shows the tables after the restart
+	snap, err := rn.obs.snap()
+	if err != nil {
+		panic(err)
+	}
+	rn.w.snap = snap
+	rn.tr.Events = append(rn.tr.Events, event{D: C("DExec", L()), O: []term{C("OExec", L(), Some(L()), snap.term())}})
+	_ = old.store.Stop()
 	rn.afterCrash = true
 	rn.stat("crash")
 }
